@@ -315,7 +315,7 @@ int main (int argc, char *argv[]) {
                      * out the split string */
                     matched++;
                     if(matched == split_size) {
-                        if(l > matched)
+                        if(l - (start + matched - 1) > 0)
                             write_data(zck, data + start, l - (start + matched - 1));
                         if(zck_end_chunk(zck) < 0)
                             exit(1);
@@ -335,6 +335,10 @@ int main (int argc, char *argv[]) {
         }
         write_data(zck, data + start, in_size - (start + matched));
     }
+    /* The input ended in the middle of a possible split string: those bytes
+     * were held back and still have to be written */
+    if(matched > 0)
+        write_data(zck, arguments.split_string, matched);
 
     close(in_fd);
 
